@@ -12,7 +12,7 @@ import (
 func init() {
 	register(&Prop{
 		ID:          "C11",
-		Explanation: "Decides the structure of sign-out: SignOut issues its success redirect only on paths where ClearSessionCookie returned nil; Manager.Clear emits the ticket-cookie deletion on every path, returns nil for an undecodable ticket only when the error is http.ErrNoCookie, and otherwise returns clearSession's result, which is the Store.Clear error passed up unchanged through the closure, the redis store (non-nil whenever Client.Del's error is non-nil) and the client wrappers; the cookie store's Clear ranges over every cookie of the request and, for each whose name matches a pattern compiled from regexp.QuoteMeta(Cookie.Name) plus an optional _<digits> suffix (a constant accepted/rejected on a fixed probe set, agreeing with splitCookieName's format), sets a deletion cookie under the presented name; setters and deleters of ticket, CSRF and session cookies use the same name expression and the same options object. Added during the build: a request that waited for the refresh lock writes the session back only after a successful reload under the lock, so a signed-out session is not re-created (R5, shared with C12.R2).",
+		Explanation: "Decides the structure of sign-out: SignOut issues its success redirect only on paths where ClearSessionCookie returned nil; Manager.Clear emits the ticket-cookie deletion on every path, returns nil for an undecodable ticket only when the error is http.ErrNoCookie, and otherwise returns clearSession's result, which is the Store.Clear error passed up unchanged through the closure, the redis store (non-nil whenever Client.Del's error is non-nil) and the client wrappers; the cookie store's Clear ranges over every cookie of the request and, for each whose name matches a pattern compiled from regexp.QuoteMeta(Cookie.Name) plus an optional _<digits> suffix (a constant accepted/rejected on a fixed probe set, agreeing with splitCookieName's format), sets a deletion cookie under the presented name; setters and deleters of ticket, CSRF and session cookies use the same name expression and the same options object. Added during the build: a request that waited for the refresh lock writes the session back only after a successful reload under the lock, so a signed-out session is not re-created (R5, shared with C12.R2). Round 3: the cookie-domain list setters and deleters choose from is sorted once and never reordered (R6); a save over a decodable request ticket reuses it, so a re-login leaves no orphan (R7).",
 		NotDecided:  "replay histories against a live store; truncated split names for 251-256 byte cookie names (arithmetic); what a browser does with the deletions.",
 		Run:         runC11,
 	})
